@@ -158,12 +158,39 @@ def describe_diff(p0, p1):
 
 
 # ------------------------------------------------------------------------------------------------
+def scramble(x, depth=0):
+    """What a call returns belongs to the caller: after recording it, overwrite every mutable container in place.
+    A library that hands out its own internal state will show it in later results."""
+    try:
+        if isinstance(x, np.ndarray):
+            if x.flags.writeable and x.dtype.kind in "fiu":
+                x[...] = -12345
+        elif isinstance(x, dict):
+            for k in list(x):
+                x[k] = "scrambled"
+        elif isinstance(x, list):
+            for i in range(len(x)):
+                if isinstance(x[i], (list, dict, np.ndarray)) and depth < 3:
+                    scramble(x[i], depth + 1)
+                else:
+                    x[i] = "scrambled"
+            x.append("scrambled")
+        elif isinstance(x, tuple) and depth < 3:
+            for v in x:
+                scramble(v, depth + 1)
+    except Exception:  # noqa
+        pass
+
+
 def run_op(op, objects):
     """op = (name, callable(objects)) -> normalised result or ('EXC', type, text)."""
     from ..apivec import norm
     try:
         with core.quiet():
-            return norm(op[1](objects))
+            raw = op[1](objects)
+            res = norm(raw)
+            scramble(raw)
+            return res
     except Exception as e:  # noqa
         return ("EXC", type(e).__name__, str(e)[:120])
 
